@@ -22,6 +22,9 @@ LEVEL_TEXT += " " + '(UNDO) an object released on a failure path was first taken
 # sixth-round additions
 TECHNIQUE += "; " + 'path searches from a parameter kept in a member to a destructor of that member (R-C14-BORROWED) and from a filled member to a bare ares_free of the object (R-C14-SHELLFREE)'
 LEVEL_TEXT += " " + "(BORROWED) an object keeping one of the function's parameters in a member is not handed to a destructor of that member unless the member was reset; (SHELLFREE) an object whose member holds an allocation is not released with a bare ares_free."
+# seventh-round addition
+TECHNIQUE += "; disjunctive forward typestate {not linked, linked?, linked, insert failed} x {status S/F} per local object put into a linked list or skip list (R-C14-UNDOLIST)"
+LEVEL_TEXT += " (UNDOLIST) an object released on a failure path was first taken out of the linked list / skip list it had been put into (13 sites)."
 LEVEL_NOTE = ("trusts clang CFG + extractor; ownership transfer through struct fields is inferred from which fields the library ever releases; five frozen "
               "exemptions (take-back idioms, correlated count/pointer) are listed with reasons in tool/py/ownrules.py")
 DESIGN_REF = "DESIGN.md §6/C14"
@@ -619,6 +622,152 @@ def r_undo(prog, R):
     r.require(nsites >= 6, "fewer hash-table insert sites than confirmed by hand (%d)" % nsites)
 
 
+_LINS = ("ares_llist_insert_first", "ares_llist_insert_last", "ares_slist_insert")
+_LUNDO = ("ares_llist_node_claim", "ares_llist_node_destroy", "ares_slist_node_claim", "ares_slist_node_destroy", "ares_llist_destroy", "ares_slist_destroy",
+          "ares_llist_clear")
+
+
+def r_undolist(prog, R):
+    r = R.rule("R-C14-UNDOLIST", "an object released on a failure path was first taken out of the linked list / skip list it had been put into: no path on which "
+               "ares_llist_insert_first/last or ares_slist_insert(list, obj) succeeded reaches a release of obj in the same function unless the node was claimed or "
+               "destroyed (or the list destroyed) in between; an insert whose result is never tested counts as possibly succeeded", floor=9,
+               analysis="disjunctive forward typestate per (function, inserted local): membership {no, ?, in, fail} refined by the tests on the insert's result (directly or "
+                        "through the variable holding the node), crossed with the S/F value of the function's status variable so that the `if (status != ARES_SUCCESS)` "
+                        "unwind after the last fallible step is not walked on the success path")
+    nsites = 0
+    for f in sorted(prog.funcs.values(), key=lambda x: x.key):
+        if not f.file.startswith("src/lib/") or f.file.startswith("src/lib/dsa/"):
+            continue
+        sites = {}
+        for b, i, c in f.calls():
+            if c.get("callee") in _LINS and len(c.get("args", [])) >= 2:
+                obj = strip(c["args"][1])
+                if obj is not None and obj.get("k") == "var" and (obj.get("ty") or "").rstrip().endswith("*"):
+                    sites.setdefault(obj["n"], []).append(c)
+        if not sites:
+            continue
+        status_var = None
+        for v in list(f.params) + [v for _, _, el in f.elements() if el["k"] == "decl" for v in el["vars"]]:
+            if (v.get("ty") or "") in ("ares_status_t", "enum ares_status_t") or (v.get("tyw") or "") == "ares_status_t":
+                status_var = v["n"]
+                break
+        for on, cs in sorted(sites.items()):
+            ids = {c["id"] for c in cs}
+            lists = {render(strip(c["args"][0])) for c in cs}
+            holders = set()
+            for b, i, el in f.elements():
+                if el["k"] == "asg" and el["e"]["op"] == "=" and el["e"].get("r") is not None:
+                    rr = strip(el["e"]["r"])
+                    if rr is not None and rr.get("k") == "call" and rr.get("id") in ids and path(el["e"]["l"]) is not None:
+                        holders.add(path(el["e"]["l"]))
+                elif el["k"] == "decl":
+                    for v in el["vars"]:
+                        rr = strip(v.get("init")) if v.get("init") else None
+                        if rr is not None and rr.get("k") == "call" and rr.get("id") in ids:
+                            holders.add(v["n"])
+
+            def releases(el, on=on):
+                if el["k"] != "call":
+                    return None
+                cc = el["e"]
+                for k2, a in enumerate(cc.get("args", [])):
+                    if is_var(strip(a), on):
+                        if cc.get("callee") == "ares_free":
+                            return "ares_free(%s)" % on
+                        t = prog.resolve(f, cc)
+                        if t is not None and _frees_param(prog, t, k2) and not any(x.endswith(("_node_claim", "_node_destroy")) for x in _callee_names(prog, t)):
+                            return "%s(%s), which frees it without unlinking it" % (t.name, on)
+                return None
+
+            hits = {}
+
+            def transfer(st, blk, i, el, on=on, ids=ids, lists=lists):
+                ins, status = st
+                if el["k"] == "call":
+                    c = el["e"]
+                    if c.get("id") in ids:
+                        return [("?", status)]
+                    if c.get("callee") in _LUNDO and ins in ("?", "in"):
+                        whole = not c["callee"].endswith(("_node_claim", "_node_destroy"))
+                        if not whole or (c.get("args") and render(strip(c["args"][0])) in lists):
+                            return [("no", status)]
+                    if ins in ("?", "in"):
+                        w = releases(el)
+                        if w:
+                            hits.setdefault((blk.id, i), (w, ins))
+                            return []
+                elif el["k"] in ("asg", "decl"):
+                    if el["k"] == "asg" and el["e"]["op"] == "=" and is_var(strip(el["e"]["l"]), on):
+                        ins = "no"          # the local now names another object (next loop round)
+                    if status_var is not None:
+                        tgt = []
+                        if el["k"] == "asg" and el["e"]["op"] == "=" and is_var(el["e"]["l"], status_var):
+                            tgt = [el["e"]["r"]]
+                        elif el["k"] == "decl":
+                            tgt = [v.get("init") for v in el["vars"] if v["n"] == status_var and v.get("init")]
+                        for rhs in tgt:
+                            v = sf_of_expr(rhs)
+                            if v is not None:
+                                status = v
+                            else:
+                                return [(ins, "S"), (ins, "F")]
+                return [(ins, status)]
+
+            def refine(st, cond, pol, blk=None, ids=ids, holders=holders):
+                ins, status = st
+                if status_var is not None and status in ("S", "F"):
+                    if refine_sf(status, cond, pol, status_var) is None:
+                        return None
+                for c, p in atoms(cond, pol):
+                    op, l, rr = norm_cmp(c, p)
+                    ls = strip(l)
+                    if ls is None:
+                        continue
+                    isres = (ls.get("k") == "call" and ls.get("id") in ids) or (path(ls) is not None and path(ls) in holders)
+                    if not isres:
+                        continue
+                    nonnull = None
+                    if op == "truth" or (op == "!=" and rr is not None and is_null(rr)):
+                        nonnull = True
+                    elif op == "false" or (op == "==" and rr is not None and is_null(rr)):
+                        nonnull = False
+                    if nonnull is None:
+                        continue
+                    if ins == "?":
+                        ins = "in" if nonnull else "fail"
+                    elif ins == "in" and not nonnull:
+                        return None
+                    elif ins == "fail" and nonnull:
+                        return None
+                return (ins, status)
+
+            forward_states(f, ("no", "S" if status_var is None else "?"), _split_unknown(transfer), refine)
+            nsites += 1
+            k = "fn=%s %s into a list undone before release" % (f.name, on)
+            if hits:
+                (bid, j), (w, ins) = sorted(hits.items())[0]
+                blk = f.blocks[bid]
+                r.viol(k, f.name, f.loc(blk.els[j]), "after %s(.., %s) %s, a path reaches %s without the node being claimed: the list keeps a pointer to freed memory" % (
+                    cs[0]["callee"], on, "succeeded" if ins == "in" else "was called (result never tested)", w), trail=[f.loc(cs[0]["ln"])])
+            else:
+                r.ok(k, f.loc(cs[0]["ln"]))
+    r.require(nsites >= 9, "fewer list insert sites of local objects than confirmed by hand (%d)" % nsites)
+
+
+def _split_unknown(transfer):
+    """the initial status '?' stands for both values"""
+    def t(st, blk, i, el):
+        if st[1] == "?":
+            out = []
+            for s in ("S", "F"):
+                for n in transfer((st[0], s), blk, i, el):
+                    if n not in out:
+                        out.append(n)
+            return out
+        return transfer(st, blk, i, el)
+    return t
+
+
 _ALLOCS = ("ares_strdup", "ares_malloc", "ares_malloc_zero", "ares_buf_create", "ares_llist_create", "ares_array_create", "ares_slist_create")
 
 
@@ -827,6 +976,7 @@ def run(prog, R, tier):
     r_allocout(prog, R)
     r_registered(prog, R)
     r_undo(prog, R)
+    r_undolist(prog, R)
     r_allocchk(prog, R)
     r_borrowed(prog, R)
     r_shellfree(prog, R)
